@@ -57,6 +57,12 @@ def ev(t):
         return math.degrees(math.sqrt(2.0 * max(r, 0.0)))
     if op == "exp":
         return math.exp(ev(t[1]))
+    if op == "ln":
+        a = ev(t[1])
+        return NAN if math.isnan(a) or a <= 0 else math.log(a)
+    if op == "round":
+        a = ev(t[1])
+        return NAN if math.isnan(a) or math.isinf(a) else float(round(a))
     if op == "powi":
         return ev(t[1]) ** t[2]
     if op == "sumseq":
